@@ -226,7 +226,7 @@ theorem c12_stale_never_honoured (i : SeqIn) (hs : i.stale = true)
 
 /-- The task statement's form: stale ∧ in scope ⇒ (refresh ok ∧ saved) ∨ validate = true
 ∨ a peer refreshed it. -/
-theorem c12_stale_never_honoured' (i : SeqIn) (hs : i.stale = true)
+theorem c12_stale_never_honoured_disj (i : SeqIn) (hs : i.stale = true)
     (hscope : (loadStored i).inScope = true) :
     (i.refresh = .ok ∧ (loadStored i).saved = true) ∨
     (i.validate = true ∧ (loadStored i).validateCalled = true) ∨
